@@ -89,6 +89,22 @@ def main():
         exps.append("b%d : %s := %s#%d;" % (i, ty, ty, n))
     echo_ok("bit string literals in every base keep their value", decls, exps)
 
+    # ---- type-prefixed reals keep the value that was written (the nearest LREAL, whatever the prefix), both signs
+    from decimal import Decimal
+
+    def show(x):
+        t = format(Decimal(repr(x)), "f")
+        return t.rstrip("0").rstrip(".") if "." in t else t
+    decls, exps = [], []
+    for i, lit in enumerate(["0.1", "16777217.0", "2.5E-3", "1.1", "3.3E-7", "123456.789", "1.0E-40", "9.87654321"]):
+        for ty in ("REAL", "LREAL"):
+            for sign in ("", "-", "+"):
+                name = "r%d%s%s" % (i, ty[0].lower(), {"": "", "-": "n", "+": "p"}[sign])
+                decls.append("%s : %s := %s#%s%s;" % (name, ty, ty if i % 2 else ty.lower(), sign, lit))
+                v = float(lit)
+                exps.append("%s : %s := %s#%s%s;" % (name, ty, ty, "-" if sign == "-" else "", show(v)))
+    echo_ok("type-prefixed real literals keep the written value (the prefix does not change it), both signs", decls, exps)
+
     # ---- durations: every unit with whole and fractional values (results that are whole milliseconds), both signs
     unit_ms = {"d": 86400000, "h": 3600000, "m": 60000, "s": 1000, "ms": 1}
     vals = ["0", "1", "1.5", "0.25", "12.125", "2.0", "100", "0.001", "1_0", "1_000.5"]
